@@ -386,6 +386,7 @@ class Simulation:
 
         # Reset power system
         reset_system(self.power_system, save_flag)
+        self.fail_duration = Time(0)
 
         # Initialize sequence history variables
         self.power_system.initialize_sequence_history()
